@@ -231,13 +231,13 @@ Lemma KInv_kreg w w' : kreg w' = kreg w -> cshape (w_archs w') = cshape (w_archs
 Proof. unfold kreg. intros H. injection H as A B C. now apply KInv_ext. Qed.
 
 Lemma kreg_move_entity w src dst nw : kreg (res_world (move_entity w src dst nw)) = kreg w.
-Proof. apply (r_move_entity kreg); reflexivity. Qed.
+Proof. apply (r_move_entity kreg); fr. Qed.
 Lemma kreg_remove_entity w loc : kreg (res_world (remove_entity w loc)) = kreg w.
-Proof. apply (r_remove_entity kreg); reflexivity. Qed.
+Proof. apply (r_remove_entity kreg); fr. Qed.
 Lemma kreg_spawn_all w : kreg (res_world (spawn_all w)) = kreg w.
-Proof. apply (r_spawn_all kreg); reflexivity. Qed.
+Proof. apply (r_spawn_all kreg); fr. Qed.
 Lemma kreg_upd_arch w ai f : kreg (upd_arch w ai f) = kreg w.
-Proof. apply (r_upd_arch kreg); reflexivity. Qed.
+Proof. apply (r_upd_arch kreg); fr. Qed.
 
 Lemma KInv_upd_edges w ai f : (forall a, a_comps (f a) = a_comps a) -> KInv w -> KInv (upd_arch w ai f).
 Proof. intros H. apply KInv_kreg; [apply kreg_upd_arch|now apply cshape_upd_arch]. Qed.
@@ -307,9 +307,9 @@ Section WithBeh.
 Variable beh : hinfo -> logent -> N -> script.
 
 Lemma tev_run_handlers hl w it tag loc sent : w_tev (fst (fst (fst (fst (run_handlers beh hl w it tag loc sent))))) = w_tev w.
-Proof. apply (r_run_handlers w_tev); reflexivity. Qed.
+Proof. apply (r_run_handlers w_tev); fr. Qed.
 Lemma tev_ev_drop w t tag ev : w_tev (ev_drop w t tag ev) = w_tev w.
-Proof. apply (r_ev_drop w_tev); reflexivity. Qed.
+Proof. apply (r_ev_drop w_tev); fr. Qed.
 
 Lemma kind_live_of_K3 w i k info : KInv w -> get_by_index (w_tev w) i = Some (k, info) -> kind_comp_live w (e_kind info).
 Proof.
@@ -368,7 +368,7 @@ Proof.
     destruct (deliver_one beh e (fst st)) as [[sent w1] fl]. cbn [fst snd] in *. split; [split; [exact Hd|eapply GevKinds_registries; eauto]|exact Hk].
   - intros q0 st HFs. destruct (FInv_parts _ HFs) as (H1 & H2 & H3). unfold unwind_w. destruct (snd st) as [[k|s]|]; try exact HFs. cbn [fst].
     assert (Hsu : structure (unwind_queue q0 (fst st)) = structure (fst st)) by (unfold unwind_queue; apply (fold_left_pres structure); intros; apply s_ev_drop).
-    assert (Htu : w_tev (unwind_queue q0 (fst st)) = w_tev (fst st)) by (apply (r_unwind_queue w_tev); reflexivity).
+    assert (Htu : w_tev (unwind_queue q0 (fst st)) = w_tev (fst st)) by (apply (r_unwind_queue w_tev); fr).
     assert (HWu : WInv (unwind_queue q0 (fst st))) by (eapply WInv_structure; eauto).
     assert (HKu : GevKinds (unwind_queue q0 (fst st))) by (eapply GevKinds_registries; [apply unwind_queue_keeps_registries|exact H2]).
     assert (HKK : KInv (unwind_queue q0 (fst st))) by (eapply KInv_structure; eauto).
@@ -492,7 +492,7 @@ Proof.
     - intros e st. unfold run_w. pose proof (creg_deliver_one e (fst st)) as Hd. destruct (deliver_one beh e (fst st)) as [[sent w2] fl2]. exact Hd.
     - intros q0 st. unfold unwind_w. destruct (snd st) as [[k|s]|]; try reflexivity. cbn [fst].
       assert (Hu : creg (unwind_queue q0 (fst st)) = creg (fst st)).
-      { apply creg_structure; [unfold unwind_queue; apply (fold_left_pres structure); intros; apply s_ev_drop|apply (r_unwind_queue w_tev); reflexivity]. }
+      { apply creg_structure; [unfold unwind_queue; apply (fold_left_pres structure); intros; apply s_ev_drop|apply (r_unwind_queue w_tev); fr]. }
       rewrite <- Hu. pose proof (kreg_spawn_all (unwind_queue q0 (fst st))) as Hs. destruct (spawn_all _); now apply creg_of_kreg. }
   destruct oc; [exact H|destruct fl; exact H].
 Qed.
@@ -559,18 +559,12 @@ Proof. intros H. exact (proj2 (gev_FInv RFUEL tag w H) ev). Qed.
 Lemma add_global_event_FInv tag w : FInv w -> FInv (res_world (add_global_event beh RFUEL tag w)).
 Proof. intros H. exact (proj1 (gev_FInv RFUEL tag w H)). Qed.
 
-(* add_component: the key it returns names a live component carrying that tag *)
-Lemma add_component_FInv tag w : FInv w ->
-  FInv (res_world (add_component beh tag w)) /\
-  match add_component beh tag w with
-  | ROk k w' => exists ci, sm_get k (w_comps w') = Some ci /\ c_tag ci = tag
-  | RFail _ _ => True
-  end.
+(* registering a new component type *)
+Lemma add_component_entry_FInv tag w k m : FInv w -> alookup tag (w_cby w) = None ->
+  insert_with (fun _ => mkC tag [] [] []) (w_comps w) = Some (k, m) ->
+  FInv (set_comps w m (ainsert tag k (w_cby w))) /\ get_by_index m (fst k) = Some (k, mkC tag [] [] []).
 Proof.
-  intros HF. pose proof HF as [HR (S1 & S2 & K1 & K2 & K3 & K5)]. unfold add_component.
-  destruct (alookup tag (w_cby w)) as [k0|] eqn:El.
-  { split; [exact HF|]. exact (K5 tag k0 El). }
-  destruct (insert_with (fun _ => mkC tag [] [] []) (w_comps w)) as [[k m]|] eqn:Ei; [|split; [exact HF|exact I]].
+  intros HF El Ei. pose proof HF as [HR (S1 & S2 & K1 & K2 & K3 & K5)].
   set (w1 := set_comps w m (ainsert tag k (w_cby w))).
   assert (Hfresh : get_by_index (w_comps w) (fst k) = None) by (eapply gbi_insert_fresh; eauto).
   assert (Hnew : get_by_index m (fst k) = Some (k, mkC tag [] [] [])) by (eapply (gbi_insert_new (fun _ => mkC tag [] [] [])); eauto).
@@ -589,7 +583,22 @@ Proof.
       + rewrite alookup_ainsert_eq in Hl. inversion Hl; subst k'. exists (mkC tag [] [] []). split; [exact (proj2 (get_of_gbi _ _ _ _ Hnew))|reflexivity].
       + rewrite alookup_ainsert_neq in Hl by exact Hne. destruct (K5 tag' k' Hl) as (ci & Hg & Ht). exists ci. split; [|exact Ht].
         rewrite (insert_get_other _ _ _ _ k' S1 Ei); [exact Hg|]. intros ->. rewrite (insert_get_fresh _ _ _ _ S1 Ei) in Hg. discriminate. }
-  assert (HF1 : FInv w1) by (split; [apply (RInv_ext w); try reflexivity; exact HR|exact HK1]).
+  split; [split; [apply (RInv_ext w); try reflexivity; exact HR|exact HK1]|exact Hnew].
+Qed.
+
+(* add_component: the key it returns names a live component carrying that tag *)
+Lemma add_component_FInv tag w : FInv w ->
+  FInv (res_world (add_component beh tag w)) /\
+  match add_component beh tag w with
+  | ROk k w' => exists ci, sm_get k (w_comps w') = Some ci /\ c_tag ci = tag
+  | RFail _ _ => True
+  end.
+Proof.
+  intros HF. pose proof HF as [HR (S1 & S2 & K1 & K2 & K3 & K5)]. unfold add_component.
+  destruct (alookup tag (w_cby w)) as [k0|] eqn:El.
+  { split; [exact HF|]. exact (K5 tag k0 El). }
+  destruct (insert_with (fun _ => mkC tag [] [] []) (w_comps w)) as [[k m]|] eqn:Ei; [|split; [exact HF|exact I]].
+  destruct (add_component_entry_FInv tag w k m HF El Ei) as [HF1 Hnew]. set (w1 := set_comps w m (ainsert tag k (w_cby w))) in *.
   pose proof (send_global_FInv G_ADDC (mkEv 0 0 k) w1 HF1) as Hs. pose proof (creg_send_global beh G_ADDC (mkEv 0 0 k) w1) as Hc.
   destruct (send_global beh RFUEL G_ADDC (mkEv 0 0 k) w1) as [[] w2|f w2]; cbn [rbind res_world] in *; [|split; [exact Hs|exact I]].
   split; [exact Hs|]. destruct (creg_get w1 w2 k (mkC tag [] [] []) Hc (proj2 (get_of_gbi _ _ _ _ Hnew))) as (ci' & Hg' & Hst).
@@ -633,22 +642,46 @@ Qed.
 Section Ops2.
 Variable beh : hinfo -> logent -> N -> script.
 
-Lemma add_targeted_event_FInv tag w : FInv w -> FInv (res_world (add_targeted_event beh tag w)).
+Definition tev_stage1 (tag : N) (w : world) : res ekind :=
+  if (20 <=? tag) && (tag <? 40) then do (c, w') <- add_component beh (tag - 20) w; ROk (KInsert (fst c)) w'
+  else if (40 <=? tag) && (tag <? 60) then do (c, w') <- add_component beh (tag - 40) w; ROk (KRemove (fst c)) w'
+  else if tag =? T_DESPAWN then ROk KDespawn w else ROk KNormal w.
+
+Definition tev_entry_world (w0 : world) (tag : N) (kind : ekind) (k : key) (m : smap einfo) : world :=
+  let w1 := set_tev w0 m (ainsert tag k (w_tby w0)) in
+  match kind with
+  | KInsert c => set_comps w1 (upd_by_index (w_comps w1) c (fun ci => mkC (c_tag ci) (c_member_of ci) (c_ins ci ++ [k]) (c_rem ci))) (w_cby w1)
+  | KRemove c => set_comps w1 (upd_by_index (w_comps w1) c (fun ci => mkC (c_tag ci) (c_member_of ci) (c_ins ci) (c_rem ci ++ [k]))) (w_cby w1)
+  | _ => w1 end.
+
+Lemma add_targeted_event_unfold tag w : add_targeted_event beh tag w =
+  do (kind, w0) <- tev_stage1 tag w;
+  match alookup tag (w_tby w0) with
+  | Some k => ROk k w0
+  | None =>
+      match insert_with (fun _ => mkE tag kind) (w_tev w0) with
+      | None => RFail (FPanic 5) w0
+      | Some (k, m) => do (_, w3) <- send_global beh RFUEL G_ADDTE (mkEv 0 0 k) (tev_entry_world w0 tag kind k m); ROk k w3
+      end
+  end.
+Proof. reflexivity. Qed.
+
+Lemma tev_stage1_FInv tag w : FInv w ->
+  FInv (res_world (tev_stage1 tag w)) /\ match tev_stage1 tag w with ROk kind w0 => kind_comp_live w0 kind | RFail _ _ => True end.
 Proof.
-  intros HF. unfold add_targeted_event.
-  set (stage1 := if (20 <=? tag) && (tag <? 40) then _ else _).
-  assert (H1 : FInv (res_world stage1) /\ match stage1 with ROk kind w0 => kind_comp_live w0 kind | RFail _ _ => True end).
-  { unfold stage1. destruct ((20 <=? tag) && (tag <? 40)).
-    - destruct (add_component_FInv beh (tag - 20) w HF) as [A B]. destruct (add_component beh (tag - 20) w) as [c w'|f w']; cbn [rbind res_world] in *; [|auto].
+  intros HF. unfold tev_stage1. destruct ((20 <=? tag) && (tag <? 40)).
+  - destruct (add_component_FInv beh (tag - 20) w HF) as [A B]. destruct (add_component beh (tag - 20) w) as [c w'|f w']; cbn [rbind res_world] in *; [|auto].
+    split; [exact A|]. destruct B as (ci & Hg & _). unfold kind_comp_live, comp_live. rewrite (gbi_of_get _ _ _ Hg). discriminate.
+  - destruct ((40 <=? tag) && (tag <? 60)).
+    + destruct (add_component_FInv beh (tag - 40) w HF) as [A B]. destruct (add_component beh (tag - 40) w) as [c w'|f w']; cbn [rbind res_world] in *; [|auto].
       split; [exact A|]. destruct B as (ci & Hg & _). unfold kind_comp_live, comp_live. rewrite (gbi_of_get _ _ _ Hg). discriminate.
-    - destruct ((40 <=? tag) && (tag <? 60)).
-      + destruct (add_component_FInv beh (tag - 40) w HF) as [A B]. destruct (add_component beh (tag - 40) w) as [c w'|f w']; cbn [rbind res_world] in *; [|auto].
-        split; [exact A|]. destruct B as (ci & Hg & _). unfold kind_comp_live, comp_live. rewrite (gbi_of_get _ _ _ Hg). discriminate.
-      + destruct (tag =? T_DESPAWN); cbn [res_world]; split; try exact HF; exact I. }
-  destruct H1 as [HF0 Hl]. destruct stage1 as [kind w0|f w0]; cbn [rbind res_world] in *; [|exact HF0].
-  destruct (alookup tag (w_tby w0)); [exact HF0|].
-  destruct (insert_with (fun _ => mkE tag kind) (w_tev w0)) as [[k m]|] eqn:Ei; [|exact HF0].
-  apply rbind_K; [|intros; assumption]. apply send_global_FInv. destruct HF0 as [HR0 HK0].
+    + destruct (tag =? T_DESPAWN); cbn [res_world]; split; try exact HF; exact I.
+Qed.
+
+Lemma tev_entry_FInv w0 tag kind k m : FInv w0 -> kind_comp_live w0 kind ->
+  insert_with (fun _ => mkE tag kind) (w_tev w0) = Some (k, m) -> FInv (tev_entry_world w0 tag kind k m).
+Proof.
+  intros [HR0 HK0] Hl Ei. unfold tev_entry_world. cbn zeta.
   split; [destruct kind; apply (RInv_ext w0); try reflexivity; exact HR0|].
   destruct kind as [|c|c| |].
   - eapply KInv_insert_tev; eauto. intros c [X|X]; discriminate.
@@ -666,6 +699,15 @@ Proof.
       exists kc, (mkC (c_tag ci) (c_member_of ci) (c_ins ci) (c_rem ci ++ [k])). split; [reflexivity|]. cbn. apply in_or_app. right. apply in_or_app. right. now left.
   - eapply KInv_insert_tev; eauto. intros c [X|X]; discriminate.
   - eapply KInv_insert_tev; eauto. intros c [X|X]; discriminate.
+Qed.
+
+Lemma add_targeted_event_FInv tag w : FInv w -> FInv (res_world (add_targeted_event beh tag w)).
+Proof.
+  intros HF. rewrite add_targeted_event_unfold. destruct (tev_stage1_FInv tag w HF) as [HF0 Hl].
+  destruct (tev_stage1 tag w) as [kind w0|f w0]; cbn [rbind res_world] in *; [|exact HF0].
+  destruct (alookup tag (w_tby w0)); [exact HF0|].
+  destruct (insert_with (fun _ => mkE tag kind) (w_tev w0)) as [[k m]|] eqn:Ei; [|exact HF0].
+  apply rbind_K; [|intros; assumption]. apply send_global_FInv. now apply tev_entry_FInv.
 Qed.
 
 Lemma send_to_FInv tag target ev w : FInv w -> FInv (res_world (send_to beh tag target ev w)).
